@@ -55,6 +55,158 @@ class VecEffects(Effects):
         Effects.__init__(self, prog, slicer, vocab, max_depth)
         self._grown = {}
         self._drained = {}
+        self._psw, self._specs, self._pc, self._spec_stack = {}, {}, {}, []
+
+    # ---- call-site specialisation --------------------------------------------------------------------------------
+    # A private function that takes a switch (`existing: Option<&LayerData>`, `mode: Mode`) and is called with a literal
+    # behaves, at that call site, like the function with the untaken arms removed.  lib.effects prunes such arms only in
+    # 'may' mode (Effects.feasible); here the *certain* effects, the success sites and the merged (`phi`) values of a
+    # function are also read on the control-flow graph without the edges its arguments rule out, so that
+    # "create runs, after the directory was made" holds for `handle(.., None)` exactly as it does for `handle_create(..)`.
+    def _param_switches(self, fn):
+        """[(switch block, subject value, enum, {target block: variant names})] of the variant switches of fn whose
+        subject is computed from a parameter of fn"""
+        if fn.path not in self._psw:
+            from .lib.guards import _discr_info
+            from .lib.value import walk
+            res = []
+            if fn.argc:
+                for sb, blk in enumerate(fn.blocks):
+                    t = blk['t']
+                    if t['t'] != 'switch':
+                        continue
+                    di = _discr_info(fn, sb, t['o'])
+                    if not di:
+                        continue
+                    place, vmap, enum = di
+                    subj = self.slicer.place(fn, place)
+                    if not any(x[0] in ('param', 'upvar') for x in walk(subj)):
+                        continue
+                    listed = [v for v, _ in t['targets']]
+                    by_t = {}
+                    for v, tb in t['targets']:
+                        by_t.setdefault(tb, set()).add(vmap.get(v, str(v)))
+                    by_t.setdefault(t['else'], set()).update(n for v, n in vmap.items() if v not in listed)
+                    res.append((sb, subj, enum, by_t))
+            self._psw[fn.path] = res
+        return self._psw[fn.path]
+
+    def spec(self, fn, mapping):
+        """(dead blocks, dead edges) of fn when called with the arguments in `mapping`, or None when nothing is ruled out"""
+        sw = self._param_switches(fn)
+        if not sw or not mapping:
+            return None
+        dead_edges = set()
+        for sb, subj, enum, by_t in sw:
+            v = Effects.subst(self, subj, mapping)
+            for _ in range(8):
+                if v[0] == 'unwrap' and v[1][0] == 'agg' and v[1][2] in ('Ok', 'Some') and len(v[1][3]) == 1:
+                    v = v[1][3][0][1]
+                else:
+                    break
+            if v[0] == 'agg' and v[2] is not None and v[1] == enum and any(v[2] in ns for ns in by_t.values()):
+                for tb, ns in by_t.items():
+                    if v[2] not in ns:
+                        dead_edges.add((sb, tb))
+        if not dead_edges:
+            return None
+        key = (fn.path, frozenset(dead_edges))
+        if key not in self._specs:
+            live, work = set(), [0]
+            while work:
+                b = work.pop()
+                if b in live:
+                    continue
+                live.add(b)
+                work.extend(t for t in fn.succs(b) if (b, t) not in dead_edges)
+            dead = frozenset(fn.reachable(0) - live)
+            preds = fn.preds()
+            order = [b for b in fn._rpo() if b in live]
+            dom = {b: None for b in live}
+            dom[0] = {0}
+            changed = True
+            while changed:
+                changed = False
+                for b in order:
+                    if b == 0:
+                        continue
+                    ps = [dom[q] for q in preds[b] if q in live and (q, b) not in dead_edges and dom[q] is not None]
+                    if not ps:
+                        continue
+                    nw = set.intersection(*ps) | {b}
+                    if dom[b] != nw:
+                        dom[b] = nw
+                        changed = True
+            for b in live:
+                if dom[b] is None:
+                    dom[b] = {b}
+            self._specs[key] = (dead, frozenset(dead_edges), dom)
+        return self._specs[key]
+
+    def _cur_spec(self, fn):
+        if self._spec_stack and self._spec_stack[-1][0] == fn.path:
+            return self._spec_stack[-1][1]
+        return None
+
+    def sites(self, fn, spec=None):
+        ss = Effects.sites(self, fn)
+        spec = spec or self._cur_spec(fn)
+        if spec is not None:
+            live = [s for s in ss if s.bb not in spec[0]]
+            return live or ss
+        return ss
+
+    def must_calls(self, fn, site_bbs, spec=None):
+        spec = spec or self._cur_spec(fn)
+        if spec is None or not site_bbs:
+            return Effects.must_calls(self, fn, site_bbs)
+        from .lib.guards import edge_dominates
+        dead, dead_edges, dom = spec
+        common = None
+        for b in site_bbs:
+            ds = dom.get(b, {b})
+            common = set(ds) if common is None else (common & ds)
+        res = []
+        for c in fn.calls:
+            if c.bb in common:
+                if c.bb in site_bbs and not (c.dest and c.dest[0] == 0):
+                    continue
+                res.append((c, None))
+        key = {id(c): (len(dom.get(c.bb, ())), 0, 0) for c, _ in res}
+        for L in self.loops(fn):
+            if L.header in common and not any(b in L.body for b in site_bbs):
+                if getattr(L, 'exhaust', None) is None or not all(edge_dominates(fn, L.exhaust[0], L.exhaust[1], b) for b in site_bbs):
+                    continue
+                for c in fn.calls:
+                    if c.bb in L.body and c.bb != L.header and all(fn.dominates(c.bb, l) or c.bb == l for l in L.latches):
+                        res.append((c, L.collection))
+                        key[id(c)] = (len(dom.get(L.header, ())), 1, len(dom.get(c.bb, ())))
+        res.sort(key=lambda x: key[id(x[0])])
+        return res
+
+    def _deads_of(self, mapping):
+        """{fn path: dead blocks} for every function of the call chain whose arguments (in `mapping`) rule out arms"""
+        ent = self._pc.get(id(mapping))
+        if ent is not None and ent[0] is mapping and ent[1] == len(mapping):
+            return ent[2]
+        deads = {}
+        for k in list(mapping):
+            if isinstance(k, tuple) and len(k) == 2 and k[0] not in deads and isinstance(k[0], str):
+                g = self.prog.fns.get(k[0])
+                if g is not None and self._param_switches(g):
+                    sp = self.spec(g, mapping)
+                    if sp is not None and sp[0]:
+                        deads[k[0]] = sp[0]
+        self._pc[id(mapping)] = (mapping, len(mapping), deads)
+        return deads
+
+    def subst(self, v, mapping):
+        r = Effects.subst(self, v, mapping)
+        if mapping:
+            deads = self._deads_of(mapping)
+            if deads:
+                r = prune_phi(self.slicer, r, deads)
+        return r
 
     # ---- drained work-lists -----------------------------------------------------------------------------------
     def drained(self, fn):
@@ -64,7 +216,11 @@ class VecEffects(Effects):
         return self._drained[fn.path]
 
     def expand(self, fn, mode='must', site_bbs=None, mapping=None, chain=(), _stack=None):
-        out = Effects.expand(self, fn, mode, site_bbs, mapping, chain, _stack)
+        self._spec_stack.append((fn.path, self.spec(fn, mapping) if mapping else None))
+        try:
+            out = Effects.expand(self, fn, mode, site_bbs, mapping, chain, _stack)
+        finally:
+            self._spec_stack.pop()
         st = _stack or ()
         if mode == 'must' and site_bbs is None and fn.path not in st and len(st) <= self.max_depth:
             d = self.drained(fn)
@@ -183,6 +339,106 @@ class VecEffects(Effects):
                     self._expand_call1(fn, c, fa, mode, m, chain, stack, out)
                 return
         Effects._expand_call(self, fn, c, forall, mode, mapping, chain, stack, out)
+
+
+def prune_phi(sl, v, deads):
+    """v without the alternatives of merged values that were computed in a block the call-site arguments rule out
+    (`deads`: {fn path: dead blocks}): a value mentioning the result of a call only exists on paths through that call"""
+    if not isinstance(v, tuple) or not v or v[0] in ('const', 'param', 'fnitem', 'constitem', 'unknown', 'closure_env', 'upvar'):
+        return v
+    if v[0] == 'phi':
+        from .lib.value import walk
+        keep = [a for a in v[1] if not any(x[0] == 'call' and len(x) == 4 and x[3] and x[3][0] in deads and x[3][1] in deads[x[3][0]]
+                                           for x in walk(a))]
+        if keep and len(keep) < len(v[1]):
+            keep = [prune_phi(sl, a, deads) for a in keep]
+            return keep[0] if len(keep) == 1 else ('phi', tuple(keep))
+    out, changed = [], False
+    for x in v:
+        if isinstance(x, tuple):
+            y = prune_phi(sl, x, deads)
+            changed = changed or (y is not x)
+            out.append(y)
+        else:
+            out.append(x)
+    if not changed:
+        return v
+    nv = tuple(out)
+    if nv[0] == 'field' and nv[1][0] in ('agg', 'tuple', 'closure', 'updated'):
+        return sl._field(nv[1], nv[2])
+    return nv
+
+
+def outcomes_ctx(E, fn, mapping=None, chain=(), stack=()):
+    """lib.effects.outcomes on the call-site specialised control flow (VecEffects.spec): success sites, certain and
+    possible effects of a function reached with literal switches are those of the arms the literals select"""
+    from .lib.effects import Outcome
+    mapping = mapping or {}
+    res = []
+    level = len(stack)
+    sp = E.spec(fn, mapping) if mapping else None
+    dead = sp[0] if sp is not None else ()
+    for site in E.sites(fn, sp):
+        must = []
+        for c, forall in E.must_calls(fn, [site.bb], sp):
+            if site.kind == 'tail' and c is site.call:
+                continue
+            n0 = len(must)
+            E._expand_call(fn, c, forall, 'must', mapping, chain, stack + (fn.path,), must)
+            for e in must[n0:]:
+                e.level, e.level_bb = level, c.bb
+        may = []
+        for c in E.may_calls(fn, [site.bb]):
+            if (site.kind == 'tail' and c is site.call) or c.bb in dead:
+                continue
+            n0 = len(may)
+            E._expand_call(fn, c, E._unrollable(fn, c), 'may', mapping, chain, stack + (fn.path,), may)
+            for e in may[n0:]:
+                e.level, e.level_bb = level, c.bb
+        conds = []
+        for cd in conditions(fn, site.bb, E.slicer):
+            subj = cd.subject if cd.subject is not None else cd.value
+            conds.append((cd, E.subst(subj, mapping), level))
+        if site.kind == 'tail':
+            callees = E.prog.callee_fns(site.call)
+            if callees:
+                for g in callees:
+                    if g.path in stack or g.path == fn.path or len(stack) > E.max_depth:
+                        res.append(Outcome(('recursion', g.path), must, may, conds, (site,)))
+                        continue
+                    m = E.call_mapping(fn, site.call, g, mapping)
+                    for sub in outcomes_ctx(E, g, m, chain + (Link(site.call, mapping),), stack + (fn.path,)):
+                        res.append(Outcome(sub.value, must + sub.must, may + sub.may, conds + sub.conds, (site,) + sub.sites))
+                continue
+            v = E.subst(E.slicer._call_value(fn, site.call, set(), 0), mapping)
+            res.append(Outcome(v, must, may, conds, (site,)))
+        elif site.kind == 'ok':
+            res.append(Outcome(E.subst(E.slicer._rvalue(fn, site.stmt, set(), 0, None), mapping), must, may, conds, (site,)))
+        else:
+            res.append(Outcome(('tuple', ()), must, may, conds, (site,)))
+    return res
+
+
+def lifted_args_ctx(E, call, crate=None, depth=3, stop_at=()):
+    """lib.tables.lifted_args, with the values re-expressed at a caller read under that caller's arguments: merged values
+    keep only the alternatives of the arms the caller's literal switches select.  [(top Fn, top call site, [values])]"""
+    from .lib.value import walk
+    prog, sl = E.prog, E.slicer
+    callers = prog.callers()
+
+    def go(f, site, vals, d):
+        has_param = any(x[0] == 'param' and x[1] == f.path for v in vals for x in walk(v))
+        css = [cs for cs in callers.get(f.path, []) if not cs.indirect and cs.name == f.path and cs.fn.path != f.path
+               and (crate is None or cs.fn.crate == crate)]
+        if not has_param or not css or d >= depth or f.vis == 'pub' or f.path in stop_at:
+            return [(f, site, vals)]
+        out = []
+        for cs in css:
+            m = {(f.path, i): sl.operand(cs.fn, a) for i, a in enumerate(cs.args)}
+            out.extend(go(cs.fn, cs, [E.subst(v, m) for v in vals], d + 1))
+        return out
+    f = call.fn
+    return go(f, call, [sl.operand(f, a) for a in call.args], 0)
 
 
 # ---- drained work-lists ----------------------------------------------------------------------------------------------
@@ -594,6 +850,35 @@ def deep_fields(sl, v, fuel=8, keep=()):
                 return sl._field(ub, out[2])
         return sl._field(out[1], out[2])
     return out
+
+
+def open_payload(sl, v, keep=()):
+    """`unwrap^n(helper(..))` with a private workspace helper -> the helper's own success payload in the caller's terms
+    (`read_and_parse(path)?` reads like the `read_to_string(path)?` + `from_str(..)?` it contains)"""
+    b, n = v, 0
+    while b[0] == 'unwrap':
+        b, n = b[1], n + 1
+    if n and b[0] == 'call' and b[1] in sl.prog.fns and b[1] not in keep:
+        u = unwrap_n(sl, b, n, keep=keep)
+        if u != v:
+            return deep_fields(sl, u, keep=keep)
+    return v
+
+
+# views of the same bytes / text: the data written is the data viewed
+_VIEWS = ('::as_bytes', '::as_str', '::into_bytes', '::as_ref', '::deref', '::borrow', '::as_slice', '::into_boxed_str', '::to_owned',
+          '::clone', '::to_vec', '::into_string')
+
+
+def peel_views(v):
+    """x of `x.as_bytes()` / `x.as_str()` / `&*x` / `x.clone()` ...: conversions that present the same text"""
+    for _ in range(12):
+        v = strip(v)
+        if v[0] == 'call' and len(v[2]) == 1 and v[1].startswith(('std::', 'core::', 'alloc::')) and v[1].endswith(_VIEWS):
+            v = v[2][0]
+        else:
+            break
+    return v
 
 
 # ---- failure propagation ---------------------------------------------------------------------------------------------
